@@ -396,6 +396,15 @@ def collection_level(ctx):
         book = rng.random() < 0.3
         k = rng.randint(1, 5)
         uids = ["w%d_%d" % (i, j) for j in range(k)]
+        if rng.random() < 0.3:
+            # UIDs whose derived file names coincide (X and X.ics -> X.ics, also case variants): the second object takes the
+            # fall-back name; both are objects of the upload and both must come back
+            sfx = ".vcf" if book else ".ics"
+            base = uids[0]
+            uids = (uids + [base + sfx] + ([base + sfx.upper()] if rng.random() < 0.4 else []))
+            if rng.random() < 0.5:
+                uids.reverse()
+            k = len(uids)
         with App({"auth": {"type": "none"}}) as app:
             if book:
                 objs = [gen_card(rng, u) for u in uids]
@@ -624,6 +633,77 @@ def stock_encoding_level(ctx):
                     ctx.violation("re-uploading the export gives another export under stock encoding %s" % stock, case)
 
 
+def bulk_names_level(ctx):
+    """the naming loop of whole-collection uploads (`_upload_all_nonatomic`) against RadicaleModel/BulkNames.lean: the storage is
+    asked to create a collection from a list of objects whose UIDs want the same file name (X / X.ics / X.ICS), are not usable as
+    file names (dot names, `~`, `/`), or equal the digest name of another one; oracle: as many stored objects as uploaded, under
+    pairwise different safe names; correspondence: the name of every object and which candidate it was"""
+    import vobject
+    import radicale.item as ritem
+    from radicale import pathutils
+    if not ctx.driver:
+        return
+    rng = ctx.rng("bulknames")
+    bases = ["X", "Y", "event", "café", "İ", "a b", "x.İcs", "K"]
+    orig_find = ritem.find_available_uid
+    for i in range(ctx.n(40, 1500)):
+        book = rng.random() < 0.3
+        sfx = ".vcf" if book else ".ics"
+        dg = lambda u: ritem.get_etag(u).strip('"')      # noqa: E731
+        pool = []
+        for b in rng.sample(bases, 2):
+            pool += [b, b + sfx, b + sfx.upper(), b.upper() + sfx, b.lower() + sfx, dg(b + sfx) + sfx, dg(b + sfx), dg(b) + sfx, "." + b, b + "~",
+                     b + "/z", "..", b + sfx + sfx, b + ".", dg(dg(b + sfx) + sfx) + sfx]
+        uids = list(dict.fromkeys(rng.sample(pool, rng.randint(1, 7))))
+        items = []
+        for u in uids:
+            if book:
+                text = "BEGIN:VCARD\r\nVERSION:3.0\r\nUID:%s\r\nFN:f\r\nN:f;;;;\r\nEND:VCARD\r\n" % u
+            else:
+                text = ("BEGIN:VCALENDAR\r\nVERSION:2.0\r\nPRODID:x\r\nBEGIN:VEVENT\r\nUID:%s\r\nDTSTAMP:20240101T000000Z\r\nDTSTART:20240102T100000Z\r\n"
+                        "SUMMARY:s\r\nEND:VEVENT\r\nEND:VCALENDAR\r\n" % u)
+            items.append(ritem.Item(collection_path="u/bn", vobject_item=vobject.readOne(text)))
+        draws = []
+
+        def recording(exists_fn, suffix=""):
+            name = orig_find(exists_fn, suffix)
+            draws.append(name)
+            return name
+        case = {"suffix": sfx, "uids": uids}
+        with App({"auth": {"type": "none"}}) as app:
+            ritem.find_available_uid = recording
+            try:
+                with app.storage.acquire_lock("w"):
+                    coll = app.storage.create_collection("/u/bn/", items=items, props={"tag": "VADDRESSBOOK" if book else "VCALENDAR"})
+                    got = [(it.href, it.uid) for it in coll.get_all()]
+            except Exception as e:
+                ctx.violation("creating a collection from %d objects raised %r" % (len(uids), e), case)
+                continue
+            finally:
+                ritem.find_available_uid = orig_find
+        by_uid = {}
+        for h, u in got:
+            by_uid.setdefault(u, []).append(h)
+        case["stored"] = sorted(got)
+        ctx.case("bulknames:%s:%d" % (sfx, len(uids)), sample=case, key=["bulk", i], nontrivial=len(uids) > 1)
+        if sorted(by_uid) != sorted(uids) or any(len(v) != 1 for v in by_uid.values()):
+            ctx.violation("uploaded %d objects %s, the collection holds %s" % (len(uids), sorted(uids), sorted(got)), case)
+            continue
+        hrefs = [by_uid[u][0] for u in uids]
+        if len(set(hrefs)) != len(hrefs) or not all(pathutils.is_safe_filesystem_path_component(h) for h in hrefs):
+            ctx.violation("the objects of one upload did not get pairwise different safe names: %s" % hrefs, case)
+        a = ctx.driver.ask1({"m": "bulknames", "suffix": chars(sfx), "uids": [chars(u) for u in uids], "taken": [],
+                             "hash": [[chars(u), chars(dg(u))] for u in uids], "fresh": [chars(d) for d in draws]})
+        model = [unchars(r["href"]) for r in a["r"]]
+        kinds = [r["kind"] for r in a["r"]]
+        if model != hrefs or [unchars(x) for x in a["assign"]] != hrefs:
+            ctx.disagree("names given by _upload_all_nonatomic vs model BulkNames.assign", case, hrefs, model)
+        elif kinds.count(3) != len(draws):
+            ctx.disagree("number of random names drawn vs model", case, len(draws), kinds.count(3))
+        for k in set(kinds):
+            ctx.case("bulknames:candidate-%d" % k, sample=dict(case, kinds=kinds), key=["bulk-kind", i, k], nontrivial=k > 1)
+
+
 def witnesses(ctx):
     """the two unsafe shapes, on the running server: served content is not a fixed point"""
     shapes = {"F5": "DESCRIPTION:a" + " " * 150 + "b",
@@ -650,7 +730,8 @@ def run(ctx):
                          "without 'quoted-printable', non-ASCII) and sequences of them; (b) objects from the grammar: VEVENT/VTODO/VJOURNAL with "
                          "VALARM, VTIMEZONE, RRULE/EXDATE/RDATE, overrides, DATE / DATE-TIME / TZID, escaped and long and non-ASCII text, quoted "
                          "and multi-valued parameters, X- properties, vCard 3.0/4.0, CRLF or LF; (c) whole calendars / address books of 1-5 "
-                         "objects; non-trivial = folding or non-ASCII involved")
+                         "objects, 30 % with UIDs whose file names coincide; (d) the naming loop of bulk uploads on UID lists with coinciding, unusable "
+                         "and digest-like names against the BulkNames model; non-trivial = folding or non-ASCII involved")
     ctx.trusted += ["harness/props/c14.py: independent content-line parser and comparison", "vobject's value typing and dateutil (exercised, not modelled)"]
     ctx.assumptions += ["canonical value spellings in the grammar (e.g. PT1H, not PT60M): vobject re-serialises typed values",
                         "PRODID / VERSION of the VCALENDAR wrapper are not compared"]
@@ -660,4 +741,5 @@ def run(ctx):
     collection_level(ctx)
     individual_export_level(ctx)
     stock_encoding_level(ctx)
+    bulk_names_level(ctx)
     witnesses(ctx)
